@@ -667,11 +667,15 @@ def _split_tuple_assigns(fn):
     rewrite(fn.body)
 
 
-def _propagate_aliases(fn):
+def _propagate_aliases(fn, never_stored=frozenset()):
     """A local bound exactly once to a name / attribute chain that is not rooted at self and whose
     root is itself stable is replaced by that chain at its uses (`send = gen.send`,
     `batches = _state.batches`).  Chains rooted at self are NOT propagated: `old = self.field` is a
-    snapshot, and the rules about save/restore need to see it as one."""
+    snapshot, and the rules about save/restore need to see it as one - except `x = self.<attr>` for an
+    attribute that nothing in the module ever assigns (a class-level table such as the in-flight
+    dict of the deduplicate decorator): there the local is just another name for the same object.
+    Such an alias is replaced in the function's own body only, not inside nested functions and
+    lambdas: what a closure captures (the table, but not self) matters for object lifetimes."""
     stores = {}
     for n in ast.walk(fn):
         if isinstance(n, ast.Name) and isinstance(n.ctx, (ast.Store, ast.Del)):
@@ -690,6 +694,7 @@ def _propagate_aliases(fn):
         params.add(fn.args.kwarg.arg)
     aliases = {}
     alias_stmts = []
+    own_only = set()
 
     def scan(stmts):
         for s in stmts:
@@ -697,7 +702,8 @@ def _propagate_aliases(fn):
                     and _is_chain(s.value):
                 nm = s.targets[0].id
                 root = _chain_root(s.value)
-                if stores.get(nm, 0) == 1 and nm not in params and root not in ("self", "cls") and root != nm \
+                self_table = root == "self" and isinstance(s.value.value, ast.Name) and s.value.attr in never_stored
+                if stores.get(nm, 0) == 1 and nm not in params and (root not in ("self", "cls") or self_table) and root != nm \
                         and (stores.get(root, 0) <= 1):
                     # attributes stored through the same chain anywhere in the function make the alias a snapshot
                     attrs = set()
@@ -709,6 +715,8 @@ def _propagate_aliases(fn):
                     if not (attrs & stored_attrs):
                         aliases[nm] = s.value
                         alias_stmts.append(s)
+                        if self_table:
+                            own_only.add(nm)
             for fld in ("body", "orelse", "finalbody"):
                 sub = getattr(s, fld, None)
                 if isinstance(sub, list) and not isinstance(s, (ast.FunctionDef, ast.AsyncFunctionDef, ast.ClassDef)):
@@ -740,8 +748,20 @@ def _propagate_aliases(fn):
         return
 
     class Rep(ast.NodeTransformer):
+        depth = 0
+
+        def _nested(self, node):
+            if node is fn:
+                return self.generic_visit(node)
+            self.depth += 1
+            try:
+                return self.generic_visit(node)
+            finally:
+                self.depth -= 1
+        visit_FunctionDef = visit_AsyncFunctionDef = visit_Lambda = _nested
+
         def visit_Name(self, node):
-            if isinstance(node.ctx, ast.Load) and node.id in aliases:
+            if isinstance(node.ctx, ast.Load) and node.id in aliases and not (self.depth and node.id in own_only):
                 return ast.copy_location(copy.deepcopy(aliases[node.id]), node)
             return node
     Rep().visit(fn)
@@ -1109,8 +1129,11 @@ def normalize_module(tree):
         _inline_single_use_temps(fn)
     for fn in [n for n in ast.walk(tree) if isinstance(n, (ast.FunctionDef, ast.AsyncFunctionDef))]:
         _split_tuple_assigns(fn)
+    stored_anywhere = set(n.attr for n in ast.walk(tree) if isinstance(n, ast.Attribute) and isinstance(n.ctx, (ast.Store, ast.Del)))
+    class_level = set(t.id for c in ast.walk(tree) if isinstance(c, ast.ClassDef) for st in c.body if isinstance(st, ast.Assign)
+                      for t in st.targets if isinstance(t, ast.Name) and isinstance(st.value, (ast.Dict, ast.List, ast.Set, ast.Call)))
     for fn in [n for n in ast.walk(tree) if isinstance(n, (ast.FunctionDef, ast.AsyncFunctionDef))]:
-        _propagate_aliases(fn)
+        _propagate_aliases(fn, frozenset(class_level - stored_anywhere))
 
 
 # ------------------------------------------------------------------------------------------
